@@ -24,6 +24,21 @@
 //!   `ProofOptions::new` accepts, `to_options()`.
 //! * [`random_desc`]`(rng, &Budget) -> AirDesc` — random description within a size budget.
 //!
+//! # Notes for users
+//! * The harness is built with debug assertions: the library then validates the trace before
+//!   proving (`Trace::validate` panics on an invalid trace) and checks that the actual constraint
+//!   degrees do not exceed the declared ones. Properties that must get INVALID traces past the prover
+//!   (C02) need `"harness": {"profile": "release"}` in their checks/Cxx.json.
+//! * `Constraint::degree` is the DECLARED degree; `AirDesc::natural_degree(&expr)` computes the one
+//!   an AIR author would declare. `random_desc` declares natural degrees.
+//! * `prove*` / `verify` panic exactly where the library panics (wrap them in `core::guarded`), and
+//!   when the hasher is not compatible with the field (`HashId::compatible`).
+//! * `GenericAir::new` takes the trace shape from the `TraceInfo` it is given (the proof's, on the
+//!   verifier side) and everything else from the description inside the public inputs; missing public
+//!   values read as zero, so wrong-length public inputs make the verifier reject, not panic.
+//! * The Lagrange kernel set-up is the repository's own dummy one (winterfell/src/tests.rs): the
+//!   "GKR proof" is log2(trace length) and both sides draw that many elements from the coin.
+//!
 //! # Text form of a description (one token, no blanks)
 //! `w=<main width>;l=<trace length>;e=<exemptions>;j=<0|1 junk in exempt tail>;p=<col>|<col>…;`
 //! `g=<colgen>,…;t=<constraint>,…;a=<assertion>,…[;x=<aux width>.<aux rands>.<0|1 lagrange>;`
@@ -2115,8 +2130,21 @@ pub fn random_desc(rng: &mut Rng, bud: &Budget) -> AirDesc {
             let x = rng.below(w as u64) as usize;
             let r0 = Expr::Rand(rng.below(num_rands as u64) as usize);
             let r1 = Expr::Rand(rng.below(num_rands as u64) as usize);
-            let kind = if j == 0 { rng.below(2) } else { rng.below(3) };
+            let nper = desc.periodic.len();
+            let mut kind = if j == 0 { rng.below(2) } else { rng.below(3) };
+            if nper > 0 && rng.chance(1, 4) {
+                kind = 3;
+            }
             match kind {
+                // running sum with a periodic selector: s' = s + p * c_x * r0, s_0 = r1
+                3 => {
+                    let pi = rng.below(nper as u64) as usize;
+                    let step = Expr::add(Expr::AuxCur(j), Expr::mul(Expr::mul(Expr::Per(pi), Expr::Cur(x)), r0.clone()));
+                    let c = Expr::sub(Expr::AuxNxt(j), step.clone());
+                    acons.push(Constraint { degree: c.degree(&cycles, n), expr: c });
+                    acols.push(AuxGen::Acc { init: r1.clone(), step });
+                    aasserts.push(AuxAssertDesc { a: AssertDesc::single(j, 0), value: r1.clone() });
+                },
                 // pointwise random linear image of a main column: a = r0 * c_x + r1
                 0 => {
                     let e = Expr::add(Expr::mul(r0.clone(), Expr::Cur(x)), r1.clone());
